@@ -38,7 +38,7 @@ PROOF_FAILURE_PATTERNS = (
     "could not prove termination", "might not be allowed", "unable to prove", "fails to satisfy",
 )
 LOG_MACROS = ("trace", "debug", "info", "warn", "error")
-SUBST_KINDS = ("closure-contract", "std-wrap", "std-wrap-all", "verus-syntax", "split-or-guard")
+SUBST_KINDS = ("closure-contract", "std-wrap", "std-wrap-all", "verus-syntax", "split-or-guard", "for-ghost-iter")
 
 
 class ExtractError(Exception):
@@ -256,6 +256,13 @@ def _validate_subst(kind, old, new, template_text):
         w = m.group(1)
         if not re.search(r"#\[verifier::external_body\]\s*(?:pub\s+)?fn\s+%s\b" % w, template_text):
             raise ExtractError(f"std-wrap: wrapper {w} is not an external_body fn of the template")
+    elif kind == "for-ghost-iter":
+        # `for PAT in EXPR` -> `for PAT' in NAME: EXPR` where PAT' is PAT or `_x` for `_` (names the loop's ghost iterator)
+        mo = re.match(r"^for\s+(\S+)\s+in\s+(.+)$", old.strip(), re.S)
+        mn = re.match(r"^for\s+(\S+)\s+in\s+(\w+)\s*:\s*(.+)$", new.strip(), re.S)
+        if not mo or not mn or rustscan.norm_ws(mo.group(2)) != rustscan.norm_ws(mn.group(3)) or \
+                not (mo.group(1) == mn.group(1) or (mo.group(1) == "_" and mn.group(1).startswith("_"))):
+            raise ExtractError("for-ghost-iter: only the ghost iterator name may be added")
     elif kind == "split-or-guard":
         # `P1 | P2 if G => BODY`  ->  `P1 if G => BODY  P2 if G => BODY` (Verus rejects or-pattern + guard in one arm)
         m = re.match(r"^(.*?)\s+if\s+(.*?)\s*=>\s*(\{.*\})\s*,?$", old, re.S)
